@@ -1182,8 +1182,61 @@ pub fn wl_oneshot<L: RawMutex + Send + Sync + 'static>(seed: u64, n: usize, broa
 }
 
 // ------------------------------------------------------------------ state broadcast (C13)
+/// Publisher / follower side of a state broadcast flavour (borrowed channel reference or shared handles).
+pub trait StTx: Send {
+    fn send(&self, v: u64) -> bool;
+    /// the only publisher is done: the borrowed flavour closes explicitly, the shared one by dropping the handle
+    fn finish(self);
+}
+pub trait StRx: Send + Clone {
+    type F: Future<Output = Option<(StateId, u64)>>;
+    fn receive(&self, id: StateId) -> Self::F;
+    fn try_receive(&self, id: StateId) -> Option<(StateId, u64)>;
+}
+impl<'a, L: RawMutex + Send + Sync> StTx for &'a futures_intrusive::channel::GenericStateBroadcastChannel<L, u64> {
+    fn send(&self, v: u64) -> bool {
+        futures_intrusive::channel::GenericStateBroadcastChannel::send(*self, v).is_ok()
+    }
+    fn finish(self) {
+        let _ = self.close();
+    }
+}
+impl<'a, L: RawMutex + Send + Sync> StRx for &'a futures_intrusive::channel::GenericStateBroadcastChannel<L, u64> {
+    type F = futures_intrusive::channel::StateReceiveFuture<'a, L, u64>;
+    fn receive(&self, id: StateId) -> Self::F {
+        futures_intrusive::channel::GenericStateBroadcastChannel::receive(*self, id)
+    }
+    fn try_receive(&self, id: StateId) -> Option<(StateId, u64)> {
+        futures_intrusive::channel::GenericStateBroadcastChannel::try_receive(*self, id)
+    }
+}
+impl<L: RawMutex + Send + Sync + 'static> StTx for futures_intrusive::channel::shared::GenericStateSender<L, u64> {
+    fn send(&self, v: u64) -> bool {
+        futures_intrusive::channel::shared::GenericStateSender::send(self, v).is_ok()
+    }
+    fn finish(self) {}
+}
+impl<L: RawMutex + Send + Sync + 'static> StRx for futures_intrusive::channel::shared::GenericStateReceiver<L, u64> {
+    type F = futures_intrusive::channel::shared::StateReceiveFuture<L, u64>;
+    fn receive(&self, id: StateId) -> Self::F {
+        futures_intrusive::channel::shared::GenericStateReceiver::receive(self, id)
+    }
+    fn try_receive(&self, id: StateId) -> Option<(StateId, u64)> {
+        futures_intrusive::channel::shared::GenericStateReceiver::try_receive(self, id)
+    }
+}
+
 pub fn wl_state<L: RawMutex + Send + Sync + 'static>(seed: u64, n: usize, pubs: u64, ctx: &mut Ctx, st: &mut ConcStats) -> Option<Violation> {
-    let (tx, rx) = generic_state_broadcast_channel::<L, u64>();
+    if seed % 2 == 0 {
+        let (tx, rx) = generic_state_broadcast_channel::<L, u64>();
+        wl_state_inner(tx, rx, seed, n, pubs, ctx, st)
+    } else {
+        let ch = futures_intrusive::channel::GenericStateBroadcastChannel::<L, u64>::new();
+        wl_state_inner(&ch, &ch, seed, n, pubs, ctx, st)
+    }
+}
+
+fn wl_state_inner<TX: StTx, RX: StRx>(tx: TX, rx: RX, seed: u64, n: usize, pubs: u64, ctx: &mut Ctx, st: &mut ConcStats) -> Option<Violation> {
     let run = Run::new(n);
     let bad = std::sync::Mutex::new(Vec::<String>::new());
     let mut logs: Vec<Vec<LogEv>> = vec![];
@@ -1204,20 +1257,40 @@ pub fn wl_state<L: RawMutex + Send + Sync + 'static>(seed: u64, n: usize, pubs: 
                     for v in 1..=pubs {
                         log!(lg, run, i, 0u8, v, {
                             let r = tx.send(v);
-                            ((), r.is_ok() as u64)
+                            ((), r as u64)
                         });
                         run.ops.fetch_add(1, Relaxed);
                         if rng.below(2) == 0 {
                             std::thread::yield_now();
                         }
                     }
-                    drop(tx); // last sender: closes
+                    tx.finish(); // last sender: closes
                 } else {
                     let mut id = StateId::new();
                     let mut last_v = 0u64;
+                    // every third follower polls with try_receive for a while before it starts to wait
+                    let mut spins = if i % 3 == 1 { 20 + rng.below(200) } else { 0 };
                     loop {
                         if run.abort.load(Relaxed) {
                             break;
+                        }
+                        if spins > 0 {
+                            spins -= 1;
+                            log!(lg, run, i, 2u8, last_v, {
+                                match rx.try_receive(id) {
+                                    Some((nid, v)) => {
+                                        if !(nid > id) || v <= last_v || v > pubs {
+                                            bad.lock().unwrap().push(format!("follower {}: after (id {:?}, value {}) try_receive returned (id {:?}, value {})", i, id, last_v, nid, v));
+                                        }
+                                        id = nid;
+                                        last_v = v;
+                                        ((), v)
+                                    }
+                                    None => ((), 0),
+                                }
+                            });
+                            run.ops.fetch_add(1, Relaxed);
+                            continue;
                         }
                         let how = pick_drive(&mut rng);
                         let stop = log!(lg, run, i, 1u8, last_v, {
@@ -1259,7 +1332,7 @@ pub fn wl_state<L: RawMutex + Send + Sync + 'static>(seed: u64, n: usize, pubs: 
         }
     });
     st.absorb(&run, &logs);
-    let names = ["send", "receive"];
+    let names = ["send", "receive", "try_receive"];
     let b = bad.lock().unwrap().clone();
     ctx.check("C13", "followers-see-strictly-increasing-ids-and-values-then-the-latest-then-none", true, b.is_empty(), || b.join(" | "));
     match verdict {
@@ -1283,6 +1356,7 @@ pub fn wl_timer<L: RawMutex + Send + Sync + 'static>(seed: u64, n: usize, rounds
     let svc: GenericTimerService<L> = GenericTimerService::new(clock);
     let run = Run::new(n);
     let early = std::sync::Mutex::new(Vec::<String>::new());
+    let skipped = std::sync::Mutex::new(Vec::<String>::new());
     let workers_left = AtomicU64::new((n - 1) as u64);
     let cancelled = AtomicU64::new(0);
     let completed = AtomicU64::new(0);
@@ -1291,7 +1365,7 @@ pub fn wl_timer<L: RawMutex + Send + Sync + 'static>(seed: u64, n: usize, rounds
     std::thread::scope(|s| {
         let mut hs = vec![];
         for i in 0..n {
-            let (svc, early, workers_left, cancelled, completed, run) = (&svc, &early, &workers_left, &cancelled, &completed, run.clone());
+            let (svc, early, skipped, workers_left, cancelled, completed, run) = (&svc, &early, &skipped, &workers_left, &cancelled, &completed, run.clone());
             hs.push(s.spawn(move || {
                 enter_worker(&run, i, seed ^ (i as u64 + 1).wrapping_mul(0x9E37_79B9));
                 let mut rng = Rng::new(seed.wrapping_mul(61).wrapping_add(i as u64));
@@ -1300,10 +1374,45 @@ pub fn wl_timer<L: RawMutex + Send + Sync + 'static>(seed: u64, n: usize, rounds
                 if i == 0 {
                     // ticker: monotone clock + check_expirations until all workers are done, then time = MAX
                     let mut t = 0u64;
+                    // Logical rule for "a due timer was not woken" (no wall clock involved): a worker that is
+                    // parked with a clear wake token on a deadline <= t *before* a check_expirations() call starts
+                    // (so its timer is registered and the call observes clock >= deadline) and that is still
+                    // parked, with a clear token and an unchanged wake counter, after the call returned, was
+                    // skipped by that call. Required for three consecutive calls before it is reported.
+                    let mut strikes = vec![0u32; n];
                     while workers_left.load(Acquire) > 0 && !run.abort.load(Relaxed) {
                         t += 1 + rng.below(3) as u64;
                         clock.set_time(t);
+                        let mut cand: Vec<(usize, u64)> = Vec::new();
+                        for w in 1..n {
+                            let c = &run.tasks[w];
+                            // token first, epoch / state afterwards (see `TaskCtl::epoch`)
+                            let clear = !c.token.load(std::sync::atomic::Ordering::SeqCst);
+                            let ep = c.epoch.load(std::sync::atomic::Ordering::SeqCst);
+                            if clear && ep % 2 == 1 && c.state.load(std::sync::atomic::Ordering::SeqCst) == PARKED && c.waiting_for.load(Relaxed) <= t && c.epoch.load(std::sync::atomic::Ordering::SeqCst) == ep {
+                                cand.push((w, ep));
+                            } else {
+                                strikes[w] = 0;
+                            }
+                        }
                         svc.check_expirations();
+                        for (w, ep) in cand {
+                            let c = &run.tasks[w];
+                            let clear = !c.token.load(std::sync::atomic::Ordering::SeqCst);
+                            if clear && c.epoch.load(std::sync::atomic::Ordering::SeqCst) == ep {
+                                strikes[w] += 1;
+                                if strikes[w] >= 3 {
+                                    skipped.lock().unwrap().push(format!(
+                                        "task {} waits (parked, no wake-up through the waker of its latest poll) for deadline {} although 3 check_expirations() calls ran with clock >= {} (now {}); next_expiration() = {:?}",
+                                        w, c.waiting_for.load(Relaxed), c.waiting_for.load(Relaxed), t, svc.next_expiration()
+                                    ));
+                                    abort_all(&run);
+                                    break;
+                                }
+                            } else {
+                                strikes[w] = 0;
+                            }
+                        }
                         run.ops.fetch_add(1, Relaxed);
                         std::thread::yield_now();
                     }
@@ -1317,9 +1426,10 @@ pub fn wl_timer<L: RawMutex + Send + Sync + 'static>(seed: u64, n: usize, rounds
                         let now = clock.now();
                         let d = rng.below(6) as u64;
                         let deadline = now + d;
-                        let how = match rng.below(4) {
+                        let how = match rng.below(6) {
                             0 => Drive::Once,
                             1 => Drive::Yields(2),
+                            2 | 3 => Drive::Repoll(rng.below(3) as u32),
                             _ => Drive::Block,
                         };
                         log!(lg, run, i, 0u8, deadline, {
@@ -1361,9 +1471,11 @@ pub fn wl_timer<L: RawMutex + Send + Sync + 'static>(seed: u64, n: usize, rounds
     ctx.check("C15", "timer-never-completes-before-its-deadline", true, e.is_empty(), || e.join(" | "));
     let ne = svc.next_expiration();
     ctx.check("C15", "no-timer-left-registered-after-all-futures-are-gone", true, ne.is_none(), || format!("next_expiration() = {:?} with no timer future alive", ne));
+    let sk = skipped.lock().unwrap().clone();
+    let verdict = if sk.is_empty() { verdict } else { Verdict::Finished };
     let r = match verdict {
         Verdict::Finished => {
-            ctx.check("C15", "due-timers-are-woken-by-check_expirations", true, true, String::new);
+            ctx.check("C15", "due-timers-are-woken-by-check_expirations", true, sk.is_empty(), || sk.join(" | "));
             None
         }
         Verdict::AllParked => {
